@@ -293,6 +293,9 @@ class DataflowRules:
                 r = name_role(t.id)
                 if r is not None:
                     txt = f"unpack:{t.id}"
+                    prev = fr.env.get(t.id)
+                    if r != e.role and prev is not None and getattr(prev, "role", None) == e.role:
+                        continue     # the name is rebound to (a conversion of) the value it already held: x, y, z = (f(a) for a in (x, y, z))
                     if r != e.role:
                         self.add("ROLE/unpack", False, fr, node, txt,
                                  f"a '{e.role}' value is unpacked into '{t.id}': {norm(node)[:100]}")
